@@ -124,6 +124,16 @@ type c12World struct {
 	outerWritten string
 }
 
+// sharedArg reports whether another middleware of the world was built from the same Config object as middleware i.
+func (w *c12World) sharedArg(i int) bool {
+	for j := range w.cfgs {
+		if j != i && w.cfgs[j] == w.cfgs[i] {
+			return true
+		}
+	}
+	return false
+}
+
 // c12OuterShared: response-header slices that an outer layer installs, unchanged, into every response it decorates
 // (capacity == length: appending reallocates; nobody downstream may write into them)
 var c12OuterPristine = map[string][]string{hVary: {"Accept-Encoding", "Cookie"}, "X-Served-By": {"outer"}}
@@ -333,12 +343,40 @@ func (w *c12World) apply(st c12Step, rng *rand.Rand) {
 				copy(old.ResponseHeaders, tcfg.ResponseHeaders)
 			}
 		}
-		if err := m.Reconfigure(&tcfg); err != nil {
+		// how the new configuration is handed in: a fresh value; or - when every list could be overwritten in place - the
+		// very Config object that was handed in before, now holding the new values (lesson of seeded changes C01-o / C07-o:
+		// "nothing changed since last time" judged against memory that the caller owns)
+		arg := &tcfg
+		if old := w.cfgs[i]; old != nil && st.Arg/3%2 == 1 && len(old.Origins) == len(tcfg.Origins) && len(old.Methods) == len(tcfg.Methods) &&
+			len(old.RequestHeaders) == len(tcfg.RequestHeaders) && len(old.ResponseHeaders) == len(tcfg.ResponseHeaders) && !w.sharedArg(i) {
+			scalars := tcfg
+			scalars.Origins, scalars.Methods, scalars.RequestHeaders, scalars.ResponseHeaders = old.Origins, old.Methods, old.RequestHeaders, old.ResponseHeaders
+			*old = scalars
+			arg = old
+		}
+		// preceded, sometimes, by a burst of k-1 reconfigurations with the CURRENT configuration, so that this one is the
+		// k-th state change since the last request (lesson of seeded changes C06-o / C12-o: generation counters that wrap)
+		burst := []int{0, 0, 0, 0, 255, 256, 511}[st.Arg/6%7]
+		if st.Arg == 125 && len(w.cur[i].Origins) < 6 {
+			burst = 65535
+		}
+		if burst > 0 {
+			cur := w.cur[i].Config()
+			for k := 0; k < burst; k++ {
+				c := cur
+				if err := m.Reconfigure(&c); err != nil {
+					break
+				}
+			}
+		}
+		if err := m.Reconfigure(arg); err != nil {
 			return
 		}
 		fresh.SetDebug(w.debug)
 		// middlewares 0 and 1 were built from ONE shared Config value; after a retarget each owns its argument
-		w.cfgs[i] = &tcfg
+		if arg == &tcfg {
+			w.cfgs[i] = &tcfg
+		}
 		w.cur[i] = target
 		w.isAlt[i] = !w.isAlt[i]
 		w.suites[i] = suiteFor(target.Sem())
@@ -452,10 +490,10 @@ func TestVerif_C12(t *testing.T) {
 			}
 			// every step kind at least once, then PRNG
 			for _, k := range shuffled(rng, c12Kinds) {
-				cs.Steps = append(cs.Steps, c12Step{k, rng.IntN(3)})
+				cs.Steps = append(cs.Steps, c12Step{k, rng.IntN(126)})
 			}
 			for len(cs.Steps) < nSteps {
-				cs.Steps = append(cs.Steps, c12Step{choose(rng, c12Kinds), rng.IntN(3)})
+				cs.Steps = append(cs.Steps, c12Step{choose(rng, c12Kinds), rng.IntN(126)})
 			}
 			c12RunHistory(r, l, cs)
 			l.NontrivialKey(specKey(cs.Specs[0]), specKey(cs.Specs[1]), fmt.Sprint(cs.Debug, cs.Seed))
